@@ -247,8 +247,8 @@ def bounded(tier, seed):
             if v and len(failures) < 10:
                 failures.append({"inputs": {"parts": [[p[0], p[1], p[2], p[3].decode("latin-1")] for p in oparts], "boundary": "bnd",
                                             "chunks": [c.decode("latin-1") for c in chunks]}, "violated": v[:3]})
-    # zero parts, LF-only line breaks, unicode names
-    for parts, nl in (([], b"\r\n"), ([("n", None, None, b"v")], b"\n"), ([("é", "ü.txt", "text/plain", b"\xff\x00")], b"\r\n")):
+    # zero parts, LF-only line breaks, unicode names, a file part with an empty filename
+    for parts, nl in (([("a", None, None, b"t"), ("f", "", "application/octet-stream", b"\x00bin\xff")], b"\r\n"), ([], b"\r\n"), ([("n", None, None, b"v")], b"\n"), ([("é", "ü.txt", "text/plain", b"\xff\x00")], b"\r\n")):
         body = encode(parts, b"bnd", nl=nl)
         for chunks in chunkings(body, 1, rng, 30):
             evals += 1
